@@ -303,6 +303,43 @@ theorem C17_extend (cur new : Tpls) (hc : (cur.map (·.1)).Nodup) (hn : (new.map
       exact ⟨p, hp, q, hq, hpn.symm⟩
 
 -- non-vacuity: inserted text is not rescanned; brace runs; unknown placeholders untouched
+/-- `Templates::insert`: a name can be defined once; a refused insert changes nothing (the caller keeps `cur`),
+    an accepted one appends the definition and keeps the names distinct -/
+theorem C17_insert (cur : Tpls) (name text : Str) (hc : (cur.map (·.1)).Nodup) :
+    (tplInsert cur name text = none ↔ name ∈ cur.map (·.1)) ∧
+    (∀ r, tplInsert cur name text = some r → r = cur ++ [(name, text)] ∧ (r.map (·.1)).Nodup) := by
+  unfold tplInsert
+  constructor
+  · constructor
+    · intro h
+      split at h
+      · rename_i hany
+        simp only [List.any_eq_true, beq_iff_eq] at hany
+        obtain ⟨q, hq, hqn⟩ := hany
+        exact List.mem_map.mpr ⟨q, hq, hqn⟩
+      · cases h
+    · intro h
+      obtain ⟨q, hq, hqn⟩ := List.mem_map.mp h
+      have : cur.any (fun q => q.1 == name) = true := by
+        simp only [List.any_eq_true, beq_iff_eq]; exact ⟨q, hq, hqn⟩
+      simp [this]
+  · intro r h
+    split at h
+    · cases h
+    · rename_i hany
+      simp only [Option.some.injEq] at h
+      subst h
+      refine ⟨rfl, ?_⟩
+      simp only [List.map_append, List.map_cons, List.map_nil]
+      rw [List.nodup_append]
+      refine ⟨hc, by simp, ?_⟩
+      intro a ha b hb hab
+      simp only [List.mem_singleton] at hb
+      subst hb; subst hab
+      apply hany
+      obtain ⟨q, hq, hqn⟩ := List.mem_map.mp ha
+      simp only [List.any_eq_true, beq_iff_eq]; exact ⟨q, hq, hqn⟩
+
 example : replaceStr [("a".toList, "X{{b}}".toList), ("b".toList, "Y".toList)] "{{a}}{{b}}".toList = "X{{b}}Y".toList := by decide
 example : replaceStr [("b".toList, "Y".toList), ("a".toList, "X{{b}}".toList)] "{{a}}{{b}}".toList = "X{{b}}Y".toList := by decide
 example : replaceStr [("a".toList, "T".toList)] "{{{a}}}{{zz}}".toList = "{T}{{zz}}".toList := by decide
